@@ -354,8 +354,10 @@ def main(argv=None) -> int:
         "wall_s": round(time.time() - t0, 3),
         "violations": len(viol_lines),
     }
-    os.makedirs(os.path.join(VERIF, "evidence"), exist_ok=True)
-    with open(os.path.join(VERIF, "evidence", f"{prop}.json"), "w") as f:
+    # runs against a scratch copy (seeded changes, PYVC_REPO set) leave the committed evidence alone
+    ev_dir = os.environ.get("PYVC_EVIDENCE_DIR") or os.path.join(VERIF, "evidence")
+    os.makedirs(ev_dir, exist_ok=True)
+    with open(os.path.join(ev_dir, f"{prop}.json"), "w") as f:
         json.dump(ev, f, indent=1, default=str)
     print(f"{prop}: {len(counted)} obligations ({n_instances} instances over {n_paths} paths, {len(units)} functions), {discharged} discharged, {len(known_hits)} known finding(s), {len(viol_lines)} violation(s), {len(undecided)} undecided, {len(errors)} error(s); solver {solver_ms/1000:.2f}s wall {time.time()-t0:.1f}s -> exit {rc}")
     if args.verbose:
